@@ -124,23 +124,32 @@ func New(
 	s.t.ControlCharacterCallback = func(key rune) {
 		switch key {
 		case 0x0F: /* ^O, silence output for a bit. */
-			verifYield("ctrlo")
-			s.wL.Lock()
-			defer s.wL.Unlock()
-			/* Don't double-pause. */
-			if s.silenced {
-				go s.Logf(ColorRed, false, "Already muted")
-				return
-			}
-			/* Pause output for a bit. */
-			s.silenced = true
-			s.resetSilenceTimer(true)
-			go s.Logf(
-				ColorRed,
-				false,
-				"Muting until we get %s of calm",
-				PlainWritePause,
-			)
+			/* We're called with the terminal locked and whoever
+			holds s.wL will be waiting to write to the terminal,
+			so don't wait for s.wL here. */
+			go func() {
+				verifYield("ctrlo")
+				s.wL.Lock()
+				defer s.wL.Unlock()
+				/* Don't double-pause. */
+				if s.silenced {
+					go s.Logf(
+						ColorRed,
+						false,
+						"Already muted",
+					)
+					return
+				}
+				/* Pause output for a bit. */
+				s.silenced = true
+				s.resetSilenceTimer(true)
+				go s.Logf(
+					ColorRed,
+					false,
+					"Muting until we get %s of calm",
+					PlainWritePause,
+				)
+			}()
 		case 0x09: /* ^I, paste from file. */
 			go s.insert()
 		case 0x0a: /* ^J, like ^I but just locally. */
